@@ -79,6 +79,9 @@ def make_loss(spec):
             w = w.astype(int if spec["weights_as"] == "int" else bool)
     f = None if spec.get("filters") is None else [FILTERS[n] for n in spec["filters"]]
     k = spec["kind"]
+    # option strings as they arrive from a configuration file or a pickle: equal to the documented values, but not the very
+    # same (interned) string objects as the literals in the library's source
+    fresh = lambda v: "".join(list(v)) if isinstance(v, str) else v  # noqa: E731
     if k == "minkowski":
         return MinkowskiLoss(p=spec.get("p", 2), coordinate_weights=w, coordinate_filters=f)
     if k == "msm":
@@ -88,7 +91,7 @@ def make_loss(spec):
         kw = {}
         if spec.get("calc"):
             kw["moment_calculator"] = CALCS[spec["calc"]][0]
-        return MethodOfMomentsLoss(covariance_mat=cov, coordinate_weights=w, coordinate_filters=f,
+        return MethodOfMomentsLoss(covariance_mat=fresh(cov), coordinate_weights=w, coordinate_filters=f,
                                    standardise_moments=spec.get("standardise", False), **kw)
     if k == "fourier":
         ff = ideal_low_pass_filter if spec.get("filter", "gaussian") == "ideal" else gaussian_low_pass_filter
@@ -97,7 +100,7 @@ def make_loss(spec):
         return GslDivLoss(nb_values=spec.get("nb_values"), nb_word_lengths=spec.get("nb_word_lengths"),
                           coordinate_weights=w, coordinate_filters=f)
     if k == "likelihood":
-        return LikelihoodLoss(coordinate_weights=w, coordinate_filters=f, h=spec.get("h", "silverman"))
+        return LikelihoodLoss(coordinate_weights=w, coordinate_filters=f, h=fresh(spec.get("h", "silverman")))
     raise ValueError(k)
 
 
